@@ -541,6 +541,7 @@ template <class G> int runOne(const std::string &prop, Family fam, bool directed
         else if (fam == MULTI) { cfg.addValues = {1, 2}; cfg.setValues = {0, 2}; cfg.maxValue = 2; }
         else { cfg.addValues = {-6, 8}; cfg.setValues = {8}; }
         (void)directed;
+        cfg.observeEveryTransition = (variant == "n2" || (cfg.maxDepth >= 0 && prop != "C10"));
         Explorer<G> ex(cfg, rep, prop);
         ex.extraStateCheck = stateHook;
         if (args.has("ops")) return replayHistory<G>(cfg, prop, args);
